@@ -1258,6 +1258,15 @@ func search(r *hx.Rng, thorough bool, hintLines []string) searchOut {
 			addV("dkg-run-failed"+keySuffix, "DKG/recovery did not complete: "+trunc(ans, 200), line)
 			return
 		}
+		// observation, not a C13 violation: a member key equal to the group secret (id = 0 mod r)
+		if f := strings.Fields(ans); len(f) >= 2 {
+			for _, mk := range strings.Split(f[0], ",") {
+				if mk == f[1] {
+					so.Dist["observation.member-key-equals-group-secret (id = 0 mod r, outside C13)"]++
+					break
+				}
+			}
+		}
 		for j, ok := range obs.ShareVerify {
 			if !ok {
 				addV("share-does-not-verify"+keySuffix, fmt.Sprintf("member %d: signature share fails VerifySig under its public share", j), line)
